@@ -138,11 +138,22 @@ class Tracer:
         os.rename = my_replace
         os.remove = my_remove
         os.unlink = my_remove
+        # modules of the library that bound the functions by name (`from os import replace, remove`)
+        from . import interpose
+
+        o = self._orig
+        self._swapped = interpose.swap_globals(
+            [(o["open"], my_open), (o["io_open"], my_open), (o["replace"], my_replace), (o["rename"], my_replace),
+             (o["remove"], my_remove), (o["unlink"], my_remove)])
         self.active = True
         return self
 
     def __exit__(self, *exc):
         self.active = False
+        from . import interpose
+
+        interpose.restore(getattr(self, "_swapped", []))
+        self._swapped = []
         builtins.open = self._orig["open"]
         io.open = self._orig["io_open"]
         os.replace = self._orig["replace"]
